@@ -11,6 +11,8 @@ import "fmt"
 	statement interface{}
 	columnNameList []string
 	columnName string
+	resultColumn resultColumn
+	resultColumnList []resultColumn
 	columnDefList []parsedColumn
 	columnDef parsedColumn
 	typeName typeName
@@ -44,8 +46,10 @@ import "fmt"
 %type<literal> literal
 %type<signedNumber> signedNumber
 %type<float> floatNumber
-%type<columnName> columnName resultColumn
-%type<columnNameList> columnNameList optColumnNameList resultColumnList
+%type<columnName> columnName
+%type<resultColumn> resultColumn
+%type<columnNameList> columnNameList optColumnNameList
+%type<resultColumnList> resultColumnList
 %type<columnDefList> columnDefList
 %type<columnDef> columnDef
 %type<indexedColumnList> indexedColumnList
@@ -192,15 +196,15 @@ optColumnNameList:
 
 resultColumn:
 	columnName {
-		$$ = $1
+		$$ = resultColumn{name: $1}
 	} |
 	'*' {
-		$$ = "*"
+		$$ = resultColumn{name: "*", star: true}
 	}
 
 resultColumnList:
 	resultColumn {
-		$$ = []string{$1}
+		$$ = []resultColumn{$1}
 	} |
 	resultColumnList ',' resultColumn {
 		$$ = append($1, $3)
@@ -514,7 +518,7 @@ exprList:
 
 selectStmt:
 	SELECT resultColumnList FROM identifier {
-		yylex.(*lexer).result = SelectStmt{ Columns: $2, Table: $4 }
+		yylex.(*lexer).result = newSelectStmt($4, $2)
 	}
 
 createTableStmt:
